@@ -39,6 +39,11 @@ class EnumVal:
         return f'{self.enum}::{self.variant}'
 
 
+class UVec:
+    """An empty Vec whose element type is not known yet (e.g. `let mut stack = Vec::with_capacity(256);`): it takes the
+    representation of the first typed position it flows into."""
+
+
 class RClosure:
     def __init__(self, node, env):
         self.node = node
@@ -257,6 +262,8 @@ class RsInterp:
         v = self.deref(v)
         if isinstance(v, SV) and v.kind == 'idl':
             return v.t
+        if isinstance(v, UVec):
+            return IDL.mk('inil')
         if isinstance(v, list):
             return idl(*[self.zint(x) for x in v])
         raise Unsupported(f'expected id list, got {v!r}')
@@ -290,7 +297,7 @@ class RsInterp:
         if len(args) != len(fn['params']):
             raise Unsupported(f"arity of {fn['name']}")
         for p, a in zip(fn['params'], args):
-            env.declare(p['name'], a)
+            env.declare(p['name'], self.coerce_arg(a, p.get('ty')))
         self.depth += 1
         if self.depth > 80:
             raise Unsupported('call depth')
@@ -302,6 +309,16 @@ class RsInterp:
         finally:
             self.depth -= 1
             self.fn_stack.pop()
+
+    def coerce_arg(self, a, ty):
+        v = self.deref(a)
+        if isinstance(v, UVec) and ty:
+            nv = self.new_vec(ty.replace('&', '').replace('mut', '').strip())
+            if isinstance(a, Ref):
+                a.set(nv)
+                return a
+            return nv
+        return a
 
     def block(self, b, env):
         env = REnv(env)
@@ -427,7 +444,11 @@ class RsInterp:
     def e_unary(self, e, env):
         op = e['op']
         if op == '&mut':
-            return self.place(e['e'], env)
+            try:
+                return self.place(e['e'], env)
+            except Unsupported:
+                cell = [self.ev(e['e'], env)]
+                return Ref(lambda: cell[0], lambda v: cell.__setitem__(0, v))
         v = self.ev(e['e'], env)
         if op in ('&', '*'):
             return v if op == '&' else self.deref(v)
@@ -605,6 +626,15 @@ class RsInterp:
         raise Unsupported(f'macro {n}!')
 
     def new_vec(self, ty, items=()):
+        alias = (ty or '').replace(' ', '').lstrip('&').replace('mut', '')
+        if alias in ('Claims',):
+            return SV(MLs.mk('lnil'), 'claims')
+        if alias in ('Memory',):
+            return SV(TLs.mk('tnil'), 'mem')
+        if alias in ('Stack',):
+            return SV(TLs.mk('tnil'), 'stack')
+        if not ty and not items:
+            return UVec()
         t = self.prog.resolve_type(ty) if ty else ''
         if t in ('Vec<u8>', 'Vec<Id>') or (not t and all(isinstance(self.deref(i), (int, SV)) and not (isinstance(self.deref(i), SV) and self.deref(i).kind != 'int') for i in items)):
             return SV(idl(*[self.zint(i) for i in items]), 'idl')
@@ -678,6 +708,8 @@ class RsInterp:
                 pl = None
             if pl is not None:
                 cur = self.deref(pl.get())
+                if isinstance(cur, UVec) and m == 'clear':
+                    return ()
                 if isinstance(cur, (SV, RIter, list)):
                     args = [self.ev(a, env) for a in e['args']]
                     return self.mut_method(pl, cur, m, args)
@@ -747,7 +779,8 @@ class RsInterp:
     def method(self, recv, m, args, env):
         # --- no-ops of the lowering
         if m in ('clone', 'as_ref', 'iter', 'into_iter', 'copied', 'cloned', 'borrow', 'to_vec', 'as_slice'):
-            if m in ('iter', 'into_iter') and isinstance(recv, SV) and recv.kind == 'idl' and self.opts.get('iter_objects'):
+            if m in ('iter', 'into_iter') and isinstance(recv, SV) and recv.kind == 'idl' and self.opts.get('iter_objects') \
+                    and self.fn_stack and self.fn_stack[-1]['name'] in self.opts.get('iter_fns', ('execute_instructions',)):
                 return RIter(recv)
             return recv
         # --- Option
@@ -757,6 +790,8 @@ class RsInterp:
             if isinstance(recv, tuple) and recv and recv[0] == 'Some':
                 return recv[1]
             raise Unsupported(f'{m} on {recv!r}')
+        if isinstance(recv, UVec) and m == 'is_empty':
+            return True
         if m == 'is_none':
             return recv is None
         if m == 'is_some':
@@ -774,8 +809,12 @@ class RsInterp:
                 ln = {'idl': spec.il_len, 'mlist': spec.ml_len, 'mem': spec.tl_len, 'stack': spec.tl_len, 'claims': spec.ml_len}[k]
                 return SV(ln(recv.t), 'int')
             if m == 'is_empty':
-                nil = {'idl': IDL.is_('inil', recv.t), 'mlist': MLs.is_('lnil', recv.t), 'claims': MLs.is_('lnil', recv.t),
-                       'stack': TLs.is_('tnil', recv.t), 'mem': TLs.is_('tnil', recv.t)}[k]
+                if k == 'idl':
+                    nil = IDL.is_('inil', recv.t)
+                elif k in ('mlist', 'claims'):
+                    nil = MLs.is_('lnil', recv.t)
+                else:
+                    nil = TLs.is_('tnil', recv.t)
                 return SV(nil, 'bool')
             if m == 'contains' and k == 'idl':
                 return SV(spec.mem(self.zint(args[0]), recv.t), 'bool')
@@ -789,6 +828,8 @@ class RsInterp:
             return self.take_for_each(recv[1], recv[2], self.deref(args[0]), env)
         if isinstance(recv, RIter) and m == 'next':
             return self.iter_next(recv)
+        if isinstance(recv, RIter) and m in ('position', 'find', 'any', 'all'):
+            return self.list_hof(recv.rest, m, self.deref(args[0]))
         raise Unsupported(f'method {m} on {recv!r}')
 
     # closures over id lists: only the shapes with a first-order meaning that the contracts can speak about
